@@ -83,11 +83,11 @@ def input_obs(t):
     return {"table": core.table_obs(t), "csr": layout(m, "csr"), "csc": layout(m, "csc")}
 
 
-def ans_of(call):
+def ans_of(call, wfilter="ignore"):
     import numpy as np
     try:
         with warnings.catch_warnings():
-            warnings.simplefilter("ignore")
+            warnings.simplefilter(wfilter)
             v = call()
     except Exception as e:  # noqa
         return {"err": core.err_name(e)}
@@ -378,6 +378,7 @@ class Checker:
         self.files = Files()
         self.recipe = None
         self.cli_rng = None
+        self.wfilter = "ignore"
 
     def ask(self, req, case, tags, nt=True, known_clause=None, known_tags=()):
         ctx = self.ctx
@@ -434,7 +435,7 @@ class Checker:
         for q, call in specs:
             if poke is not None and poke.random() < 0.25:
                 core.poke_layout(t, poke, 1)       # the layout a previous read left behind
-            items.append((q, ans_of(call)))
+            items.append((q, ans_of(call, self.wfilter)))
         for q, a in items:
             if q["q"] in ("min", "max") and "nums" in a:
                 self.ctx.count("query-%s=values" % q["q"])
@@ -477,7 +478,8 @@ class Checker:
                 if via == "api":
                     try:
                         with warnings.catch_warnings():
-                            warnings.simplefilter("ignore")
+                            warnings.simplefilter(self.wfilter if len(inp["table"]["samp"]) and len(inp["table"]["obs"])
+                                                  else "ignore")     # std of no counts warns by nature
                             text = _summarize_table(t, qualitative=q, observations=o)
                     except Exception as e:  # noqa
                         self.ctx.case({"check": "report", "tag": tag, "q": q, "o": o, "raised": True}, nontrivial=True)
@@ -734,18 +736,25 @@ class Checker:
         rng.shuffle(groups)
         profile = rng.choice(PROFILES)
         self.ctx.count("profile=%s" % ("default" if profile is None else "+".join("%s=%s" % kv for kv in profile.items())))
+        # the caller's warnings filter is not the library's business: 'error' turns any warning into an exception
+        wfilter = rng.choice(["ignore", "ignore", "always", "error"]) if profile != {"all": "warn"} else "ignore"
+        self.ctx.count("warnings-filter=%s" % wfilter)
         for g in groups:
             if rng.random() < 0.6:
                 for c in core.poke_layout(t, rng):
                     self.ctx.count("poke=%s" % c)
             self.ctx.count("layout-at-call=%s" % t.matrix_data.getformat())
-            if profile is None:
-                self.group(t, g, tag, tags, rng, exact=exact)
-            else:
+            self.wfilter = wfilter
+            try:
                 with warnings.catch_warnings():
-                    warnings.simplefilter("ignore")
-                    with biom.err.errstate(**profile):
+                    warnings.simplefilter(wfilter)
+                    if profile is None:
                         self.group(t, g, tag, tags, rng, exact=exact)
+                    else:
+                        with biom.err.errstate(**profile):
+                            self.group(t, g, tag, tags, rng, exact=exact)
+            finally:
+                self.wfilter = "ignore"
         return inp
 
     # ------------------------------------------------------------------ histories
@@ -1006,8 +1015,9 @@ def gen_table(rng, quick):
     return spec, route, post, classes
 
 
-# integers beyond the float32 mantissa whose sums stay exact in binary64
-BIGINT = [float(2 ** 24 + 1), float(2 ** 24 + 3), float(2 ** 31 + 7), float(2 ** 40 + 3), float(2 ** 33 - 1), -float(2 ** 25 + 1)]
+# integers beyond the float32 mantissa; small enough that binary64 rounding inside numpy's mean/std stays far below the
+# precision the report prints (with 2**40-sized counts the float std itself is off by ~1e-4: runtime rounding, not modelled)
+BIGINT = [float(2 ** 24 + 1), float(2 ** 24 + 3), float(2 ** 26 + 5), float(2 ** 27 + 1), -float(2 ** 25 + 1)]
 # denormals, non-dyadic fractions, huge values: sums are NOT exact, only the figures that do not add floats are judged
 WILD = [5e-324, 2.0 ** -1040, 0.1, 0.3, 1.0 / 3.0, -0.7, 1e300, 2.0 ** 53 + 2.0, 1e-7, 123456789012345.678, -1e-310]
 
@@ -1240,7 +1250,7 @@ def run(ctx):
                 ctx.count("route=%s" % route)
                 ctx.count("post=%s" % post)
         # 3. random tables
-        n_tables = 170 if ctx.quick() else 10000 // ctx.worker[1]
+        n_tables = 135 if ctx.quick() else 10000 // ctx.worker[1]
         cli_share = 0.15 if ctx.quick() else 0.1
         hist_share = 0.6
         for k in range(n_tables):
